@@ -482,7 +482,7 @@ Definition classify (c : N) : cclass :=
   else if c =? CH_OR then CSingle KOr
   else if c =? CH_LPAREN then CSingle KLParen
   else if c =? CH_RPAREN then CSingle KRParen
-  else if memN c SKIP_WS then CSkip
+  else if is_whitespace c then CSkip
   else CStart.
 
 (** the break condition of [read_hop_predicate] *)
